@@ -112,6 +112,12 @@ func runFlags(t *simrt.Tape, keep bool) simrt.Outcome {
 			r.stats["probe.repeated-flags"]++
 		case 0, 1: // -rate N/D
 			n := []int{1, 2, 3, 7, 10, 50, 100, 999, 1000, 12345, 1 + t.Choose(1000000), 1 + t.Choose(1<<30)}[t.Choose(12)]
+			if strconv.IntSize == 64 && t.Prob(1, 10) {
+				// counts that a float64 cannot hold exactly, up to the largest int
+				big := []int64{1<<53 + 1 + int64(t.Choose(1000)), 1<<62 + 1 + int64(t.Choose(1000)), 1<<63 - 1 - int64(t.Choose(1000))}[t.Choose(3)]
+				n = int(big)
+				r.stats["probe.rate-count-beyond-2^53"]++
+			}
 			var text string
 			per := time.Second
 			switch t.Choose(5) % 4 {
@@ -183,7 +189,9 @@ func runFlags(t *simrt.Tape, keep bool) simrt.Outcome {
 			bad := []string{"", "x", "1/", "1//s", "1/s/s", "1.5/s", "1/abc", "1 /s", " 10", "ten", "/s", "1/1", "0x10/s",
 				// a rate is a number of hits (>= 0) per a time unit (> 0): neither "5 per no time" nor a negative count or
 				// unit is one, and a period that does not parse is malformed whatever the count in front of it
-				"5/0s", "5/0ms", "7/0h0m0s", "5/-1s", "-5", "-5/1s", "-5/-1s", "0/xyz", "0/", "00/blah"}[t.Choose(23)]
+				"5/0s", "5/0ms", "7/0h0m0s", "5/-1s", "-5", "-5/1s", "-5/-1s", "0/xyz", "0/", "00/blah",
+				// the count is a decimal integer: no exponent, fraction, other base or digit separator
+				"1e3", "2e0/m", "5.0", "5.0/s", "0x1p4", "0x1p4/s", "0x10", "1_000", "1e3/1s", "Inf", "NaN/s", "1e19"}[t.Choose(35)]
 			if _, _, _, _, _, _, err := attackFlagValues("-rate=" + bad); err == nil {
 				r.fail("C19.rate-malformed-accepted", nil, "malformed -rate=%q was accepted", bad)
 			}
